@@ -7,7 +7,6 @@ import (
 	"fmt"
 	"math"
 	"os"
-	"reflect"
 	"sort"
 	"strings"
 )
@@ -50,22 +49,23 @@ type FieldDef struct {
 func (f *FieldDef) Validate(val interface{}) error {
 	switch f.DataType {
 	case TypeInt:
-		if reflect.TypeOf(val).Kind() != reflect.Int64 {
+		v, ok := val.(int64)
+		if !ok {
 			return ErrTypeMismatch
 		}
-		if val.(int64) > math.MaxInt32 || val.(int64) < math.MinInt32 {
+		if v > math.MaxInt32 || v < math.MinInt32 {
 			return ErrIntOutOfRange
 		}
 	case TypeBigInt:
-		if reflect.TypeOf(val).Kind() != reflect.Int64 {
+		if _, ok := val.(int64); !ok {
 			return ErrTypeMismatch
 		}
 	case TypeVarchar:
-		if reflect.TypeOf(val).Kind() != reflect.String {
+		if _, ok := val.(string); !ok {
 			return ErrTypeMismatch
 		}
 	case TypeBoolean:
-		if reflect.TypeOf(val).Kind() != reflect.Bool {
+		if _, ok := val.(bool); !ok {
 			return ErrTypeMismatch
 		}
 	default:
